@@ -1,5 +1,5 @@
 (** C07 - vertex buffer layouts mirror the vertex input structs. *)
-From W2W Require Import Wf RustLayout C07Spec C07Proof.
+From W2W Require Import Wf RustLayout C07Spec C07Premise C07Proof C07Comp.
 
 (** Structure, for every module the generator accepts: one attribute table per distinct struct taken by a vertex
     entry (sorted by name, first occurrence), with exactly one attribute per @location member in order - its
@@ -41,3 +41,36 @@ Theorem C07_leaf_layouts : forall m mv fuel t r e,
   exists l, ty_layout e r = Some l /\ leaf4 l.
 Proof. exact vertex_leaf_layout. Qed.
 Print Assumptions C07_leaf_layouts.
+
+(** The full statement: structure AND wgpu's vertex-buffer rules on the repr(C) layout of the emitted struct, for every
+    wf module the generator accepts whose vertex input structs are emitted and have 32/64-bit numeric scalar / vector
+    members with distinct names ([wf_vertex_inputs], a WGSL rule evaluated on every case; it excludes exactly the
+    known-finding class "struct of a vertex parameter that is also an entry point result"). The attribute offsets are
+    the offsets of the Rust fields (offset_of!), the stride is the Rust struct's size: every attribute lies inside the
+    stride at an offset aligned to min(4, size), attribute ranges are disjoint, the stride is a multiple of 4. *)
+Theorem C07_holds : forall m src inc o out_,
+  wf m = true -> wf_vertex_inputs m = true -> gen m src inc o = Ok out_ -> C07_ok m out_ = true.
+Proof. exact C07_ok_gen. Qed.
+Print Assumptions C07_holds.
+
+(** non-vacuity: a module with two vertex structs (one with an interleaved builtin, unordered locations) meets the
+    premises and is accepted *)
+Definition nv7_f32 := mkTy None (TScalar (mkScalar SkFloat 4)) 4 4 None.
+Definition nv7_u32 := mkTy None (TScalar (mkScalar SkUint 4)) 4 4 None.
+Definition nv7_v3 := mkTy None (TVector Tri (mkScalar SkFloat 4)) 12 16 None.
+Definition nv7_v4 := mkTy None (TVector Quad (mkScalar SkFloat 4)) 16 16 None.
+Definition nv7_a := mkTy (Some "VertexIn") (TStruct [mkMember (Some "pos") 2 (Some (BLocation 3 false)) 0;
+                                                     mkMember (Some "vi") 1 (Some (BBuiltIn "vertex_index")) 12;
+                                                     mkMember (Some "w") 0 (Some (BLocation 0 false)) 16] 32) 32 16 (Some "vertex_in").
+Definition nv7_b := mkTy (Some "Inst") (TStruct [mkMember (Some "color") 3 (Some (BLocation 5 false)) 0] 16) 16 16 (Some "inst").
+Definition nv7_fn := mkFunc (Some "vs_main") [mkArg (Some "a") 4 None; mkArg (Some "ii") 1 (Some (BBuiltIn "instance_index")); mkArg (Some "b") 5 None]
+                            (Some (3%nat, Some (BBuiltIn "position"))) [] [].
+Definition nv7_mod := mkModule [nv7_f32; nv7_u32; nv7_v3; nv7_v4; nv7_a; nv7_b] [] [] [] []
+  [mkEntry "vs_main" "VS_MAIN" Vertex (1, 1, 1)%N false nv7_fn] true.
+Example C07_premises_satisfiable : exists out_,
+  wf nv7_mod = true /\ wf_vertex_inputs nv7_mod = true /\
+  gen nv7_mod "" None (mkOptions true false false false MVGlam) = Ok out_ /\
+  map (fun v => (vs_name v, map (fun a => (va_location a, va_format a, va_field a)) (vs_attrs v))) (o_vstructs out_) =
+    [("Inst", [(5%N, "Float32x4", "color")]); ("VertexIn", [(3%N, "Float32x3", "pos"); (0%N, "Float32", "w")])] /\
+  C07_layout_ok out_ = true.
+Proof. eexists. repeat split; vm_compute; reflexivity. Qed.
